@@ -74,6 +74,23 @@ def add_special_steps(rng, dt, pfx, modname, others=()):
                       'dirs': rng.choice(TRAILERS)})
         if rng.random() < 0.5:
             steps.append({'i': base + 10, 'form': 'comment', 'pts': [], 'ps2': False, 'sep': 'none'})
+    if rng.random() < 0.25:
+        # the same value checked against the same want in several doctests, under flags that
+        # differ from doctest to doctest (what one doctest's comparison found is its own)
+        b3 = base + 20
+        sv = {'i': b3, 'form': 'sayval', 'pts': ['%ss%da' % (pfx, b3)], 'ps2': False, 'sep': 'blank', 'want': 'okell'}
+        steps.insert(rng.randint(0, len(steps)), sv)
+        if rng.random() < 0.5:
+            steps.insert(0, {'i': b3 + 1, 'form': 'directive', 'pts': [], 'ps2': False, 'sep': 'none',
+                             'dirs': [rng.choice([['-', 'ELLIPSIS', None], ['-', 'NORMALIZE_REPR', None]])]})
+        steps[0]['sep'] = 'none'
+    if rng.random() < 0.25:
+        # the same two-line loop in several doctests, written with '...' in some and with
+        # '>>>' in others (how one doctest's text was parsed is its own business)
+        b4 = base + 30
+        steps.insert(rng.randint(0, len(steps)), {'i': b4, 'form': 'loopval', 'pts': [], 'ps2': rng.random() < 0.5,
+                                                  'sep': 'blank', 'want': 'loopecho'})
+        steps[0]['sep'] = 'none'
     if others and rng.random() < 0.12:
         # everything depends on a module that the static lookup cannot find (the package is
         # not on sys.path): unmet, whatever has been imported in this process meanwhile
